@@ -759,8 +759,12 @@ func TestCheck(t *testing.T) {
 				if p.pre[v], err = x509.ParseCertificate(is.preDER[v]); err != nil {
 					t.Fatalf("pre-issuer %s/%d/%d: %v", kd, n, v, err)
 				}
-				if !ct.IsPreIssuer(p.pre[v]) || ct.IsPreIssuer(p.ca) {
-					t.Fatalf("pre-issuer detection broken in the fixture")
+				r.Eval(1)
+				if !ct.IsPreIssuer(p.pre[v]) {
+					r.Violation("pre-issuer-detection IsPreIssuer misses a certificate with the CT EKU", fmt.Sprintf("pre-issuer variant %d of issuer %s/%d carries the CertificateTransparency EKU (alone, last or first of its key purposes) but IsPreIssuer is false", v, kd, n), hx(is.preDER[v]))
+				}
+				if ct.IsPreIssuer(p.ca) {
+					r.Violation("pre-issuer-detection IsPreIssuer accepts a certificate without the CT EKU", fmt.Sprintf("issuer %s/%d", kd, n), hx(is.caDER))
 				}
 			}
 			c.issuers = append(c.issuers, is)
